@@ -96,5 +96,46 @@ pub open spec fn start_of(vm: &VM, counter: usize) -> int { phys(vm.arch.ds, cou
 //@end
 //@end
 
+// ---- string forms: one byte per character (db), one zero-extended word per character (dw), quotes excluded
+//@action src/lib/data_parser/data_parser.rs db = "db", r#"\"[[:ascii:]]*\""# as ld_db_string
+//@contract
+//@strslice
+    requires *old(counter) <= 0x20000,
+        q.is_ascii() && 2 <= q@.len() <= 0x10002,    // the token's regex: ASCII between two quotes; the assembler admits at most 65535 bytes per segment
+    ensures *final(counter) == *old(counter) + (q@.len() - 2), final(vm).arch == old(vm).arch,
+        forall|a: int| 0 <= a < 0x100000 ==> #[trigger] final(vm).mem[a] ==
+            (if rel(a, start_of(old(vm), *old(counter))) < q@.len() - 2 { q@[1 + rel(a, start_of(old(vm), *old(counter)))] as u8 } else { old(vm).mem[a] }),
+//@loop 0
+        invariant
+            q.is_ascii() && 2 <= q@.len() <= 0x10002, 0 <= verif_it.index@ <= q@.len() - 2,
+            addr == (start_of(old(vm), *old(counter)) + verif_it.index@) % 0x100000,
+            vm.arch == old(vm).arch, *counter == *old(counter),
+            forall|a: int| 0 <= a < 0x100000 ==> #[trigger] vm.mem[a] ==
+                (if rel(a, start_of(old(vm), *old(counter))) < verif_it.index@ { q@[1 + rel(a, start_of(old(vm), *old(counter)))] as u8 } else { old(vm).mem[a] }),
+//@end
+//@end
+
+//@action src/lib/data_parser/data_parser.rs dw = "dw", r#"\"[[:ascii:]]*\""# as ld_dw_string
+//@contract
+//@strslice
+    requires *old(counter) <= 0x20000,
+        q.is_ascii() && 2 <= q@.len() <= 0x8002,
+    ensures *final(counter) == *old(counter) + 2 * (q@.len() - 2), final(vm).arch == old(vm).arch,
+        forall|a: int| 0 <= a < 0x100000 ==> #[trigger] final(vm).mem[a] ==
+            (if rel(a, start_of(old(vm), *old(counter))) < 2 * (q@.len() - 2) {
+                (if rel(a, start_of(old(vm), *old(counter))) % 2 == 0 { q@[1 + rel(a, start_of(old(vm), *old(counter))) / 2] as u8 } else { 0u8 })
+             } else { old(vm).mem[a] }),
+//@loop 0
+        invariant
+            q.is_ascii() && 2 <= q@.len() <= 0x8002, 0 <= verif_it.index@ <= q@.len() - 2,
+            addr == (start_of(old(vm), *old(counter)) + 2 * verif_it.index@) % 0x100000,
+            vm.arch == old(vm).arch, *counter == *old(counter),
+            forall|a: int| 0 <= a < 0x100000 ==> #[trigger] vm.mem[a] ==
+                (if rel(a, start_of(old(vm), *old(counter))) < 2 * verif_it.index@ {
+                    (if rel(a, start_of(old(vm), *old(counter))) % 2 == 0 { q@[1 + rel(a, start_of(old(vm), *old(counter))) / 2] as u8 } else { 0u8 })
+                 } else { old(vm).mem[a] }),
+//@end
+//@end
+
 } // verus!
 fn main() {}
